@@ -116,6 +116,27 @@ func (t *ty) hasOpt() bool {
 	}
 }
 
+// hasLeaf reports whether leaf type n occurs in t.
+func (t *ty) hasLeaf(n string) bool {
+	switch t.k {
+	case kLeaf:
+		return t.leaf == n
+	case kStruct:
+		for _, f := range t.fs {
+			if f.hasLeaf(n) {
+				return true
+			}
+		}
+		return false
+	case kArr:
+		return t.el.hasLeaf(n)
+	case kOpt:
+		return t.in.hasLeaf(n)
+	default:
+		return t.er.hasLeaf(n) || t.ok.hasLeaf(n)
+	}
+}
+
 // nLeaves counts leaf positions (payloads of optionals included).
 func (t *ty) nLeaves() int {
 	switch t.k {
